@@ -93,6 +93,18 @@ fn consumer_body<E: Ex>(s: &IS<E>, p: &IP) {
                     log_yield::<E>(&x);
                 }
                 sched::log("forever_none", 0, 0);
+                if p.prop == "C11" {
+                    // calls that start after close must return at once, again and again
+                    for _ in 0..2 {
+                        sched::log("after_close_call", 0, 0);
+                        let again = sig.forever().next();
+                        sched::log("after_close_ret", again.is_some() as u64, 0);
+                        for x in sig.wait() {
+                            log_yield::<E>(&x);
+                        }
+                        sched::log("after_close_ret", 0, 1);
+                    }
+                }
             } else {
                 loop {
                     if sig.is_closed() {
@@ -109,6 +121,18 @@ fn consumer_body<E: Ex>(s: &IS<E>, p: &IP) {
                         sched::log("k_gave_up", 0, 0);
                         break;
                     }
+                }
+                if p.prop == "C11" && sig.is_closed() {
+                    // calls that start after close must return at once, again and again
+                    for _ in 0..3 {
+                        sched::log("after_close_call", 0, 0);
+                        for x in sig.wait() {
+                            log_yield::<E>(&x);
+                        }
+                        sched::log("after_close_ret", 0, 1);
+                    }
+                    let again = sig.forever().next();
+                    sched::log("after_close_ret", again.is_some() as u64, 0);
                 }
             }
             Consumer::Sig(sig)
@@ -161,6 +185,16 @@ fn consumer_body<E: Ex>(s: &IS<E>, p: &IP) {
                     }
                     PollResult::Closed => {
                         sched::log("poll_closed", 0, 0);
+                        if p.prop == "C11" {
+                            for _ in 0..2 {
+                                let mut dummy = |_r: &mut UnixStream| -> Result<bool, std::io::Error> { Ok(false) };
+                                match it.poll_signal(&mut dummy) {
+                                    PollResult::Closed => sched::log("after_close_ret", 0, 2),
+                                    PollResult::Signal(x) => log_yield::<E>(&x),
+                                    _ => sched::log("after_close_ret", 1, 2),
+                                }
+                            }
+                        }
                         break;
                     }
                     PollResult::Err(e) => {
@@ -371,7 +405,7 @@ where
     };
     Scenario {
         name: p.name.to_string(),
-        opts: Opts { stale_reads: false, stale_depth: 2, max_spurious: 0, horizon: 60_000, log_ops: false, log_handler_ops: true, reduce: true },
+        opts: Opts { stale_reads: false, stale_depth: 2, max_spurious: 0, horizon: 60_000, log_ops: false, log_handler_ops: true, reduce: true, no_discipline: false },
         signals: vec![S1, S2],
         setup: Box::new(setup),
         threads,
@@ -464,6 +498,14 @@ fn check(log: &[Ev], p: &IP, closed_end: bool) -> Result<u64, String> {
                             if i > c && ev.a != 1 {
                                 return Err("C11: is_closed() returned false after close() had returned".into());
                             }
+                        }
+                    }
+                    "after_close_ret" => {
+                        if ev.a != 0 && ev.b == 0 {
+                            return Err("C11: the infinite iterator yielded again after it had ended".into());
+                        }
+                        if ev.a != 0 && ev.b == 2 {
+                            return Err("C11: poll_signal did not report Closed when called again after close".into());
                         }
                     }
                     "poll_pending" => {
